@@ -261,6 +261,9 @@ func checkSameNamedTypes() error {
 // earlier and kept alive must read the same after the case built, loaded and
 // failed to build other arrays.
 func checkC16(c *Case, s *Stats) error {
+	if c.Gen == "concurrent-round" {
+		return concurrentArrays(c.Block, s)
+	}
 	eidx := []int32{1, 2, 63, 64, 130, 700, 4099}
 	eraw := []uint64{0xa1, 0xb2b2, 0xc3c3c3, 0xd4d4d4d4, 0xe5, 0xf6f6, 0x0707070707070707}
 	for _, p := range c.Probe {
